@@ -79,7 +79,14 @@ fn fixed<const N: usize>(op: &str, a: &[&str]) -> Option<String> {
         ("tr_wrapping_shl_vartime", [s]) => uhex(&ShlVartime::wrapping_shl_vartime(&x, arg!(dec32(s)))),
         ("tr_wrapping_shr_vartime", [s]) => uhex(&ShrVartime::wrapping_shr_vartime(&x, arg!(dec32(s)))),
         ("op_shl", [s, f]) => {
-            let s = arg!(dec32(s));
+            // the shift as written on the line; amounts above u32::MAX exist only for the `usize` forms 4 and 5
+            let s64 = arg!(s.parse::<u64>().ok());
+            let su = s64 as usize;
+            let s = match u32::try_from(s64) {
+                Ok(v) => v,
+                Err(_) if *f == "4" || *f == "5" => 0,
+                Err(_) => return Some(BAD.into()),
+            };
             match *f {
                 "0" => uhex(&(x << s)),
                 "1" => uhex(&(&x << s)),
@@ -89,17 +96,24 @@ fn fixed<const N: usize>(op: &str, a: &[&str]) -> Option<String> {
                     uhex(&y)
                 }
                 "3" => uhex(&(x << (s as i32))),
-                "4" => uhex(&(&x << (s as usize))),
+                "4" => uhex(&(&x << su)),
                 "5" => {
                     let mut y = x;
-                    y <<= s as usize;
+                    y <<= su;
                     uhex(&y)
                 }
                 _ => return Some(BAD.into()),
             }
         }
         ("op_shr", [s, f]) => {
-            let s = arg!(dec32(s));
+            // the shift as written on the line; amounts above u32::MAX exist only for the `usize` forms 4 and 5
+            let s64 = arg!(s.parse::<u64>().ok());
+            let su = s64 as usize;
+            let s = match u32::try_from(s64) {
+                Ok(v) => v,
+                Err(_) if *f == "4" || *f == "5" => 0,
+                Err(_) => return Some(BAD.into()),
+            };
             match *f {
                 "0" => uhex(&(x >> s)),
                 "1" => uhex(&(&x >> s)),
@@ -109,10 +123,10 @@ fn fixed<const N: usize>(op: &str, a: &[&str]) -> Option<String> {
                     uhex(&y)
                 }
                 "3" => uhex(&(x >> (s as i32))),
-                "4" => uhex(&(&x >> (s as usize))),
+                "4" => uhex(&(&x >> su)),
                 "5" => {
                     let mut y = x;
-                    y >>= s as usize;
+                    y >>= su;
                     uhex(&y)
                 }
                 _ => return Some(BAD.into()),
@@ -234,7 +248,14 @@ fn signed<const N: usize>(op: &str, a: &[&str]) -> Option<String> {
         ("tr_wrapping_shl_vartime", [s]) => ihex(&ShlVartime::wrapping_shl_vartime(&x, arg!(dec32(s)))),
         ("tr_wrapping_shr_vartime", [s]) => ihex(&ShrVartime::wrapping_shr_vartime(&x, arg!(dec32(s)))),
         ("op_shl", [s, f]) => {
-            let s = arg!(dec32(s));
+            // the shift as written on the line; amounts above u32::MAX exist only for the `usize` forms 4 and 5
+            let s64 = arg!(s.parse::<u64>().ok());
+            let su = s64 as usize;
+            let s = match u32::try_from(s64) {
+                Ok(v) => v,
+                Err(_) if *f == "4" || *f == "5" => 0,
+                Err(_) => return Some(BAD.into()),
+            };
             match *f {
                 "0" => ihex(&(x << s)),
                 "1" => ihex(&(&x << s)),
@@ -244,17 +265,24 @@ fn signed<const N: usize>(op: &str, a: &[&str]) -> Option<String> {
                     ihex(&y)
                 }
                 "3" => ihex(&(x << (s as i32))),
-                "4" => ihex(&(&x << (s as usize))),
+                "4" => ihex(&(&x << su)),
                 "5" => {
                     let mut y = x;
-                    y <<= s as usize;
+                    y <<= su;
                     ihex(&y)
                 }
                 _ => return Some(BAD.into()),
             }
         }
         ("op_shr", [s, f]) => {
-            let s = arg!(dec32(s));
+            // the shift as written on the line; amounts above u32::MAX exist only for the `usize` forms 4 and 5
+            let s64 = arg!(s.parse::<u64>().ok());
+            let su = s64 as usize;
+            let s = match u32::try_from(s64) {
+                Ok(v) => v,
+                Err(_) if *f == "4" || *f == "5" => 0,
+                Err(_) => return Some(BAD.into()),
+            };
             match *f {
                 "0" => ihex(&(x >> s)),
                 "1" => ihex(&(&x >> s)),
@@ -264,10 +292,10 @@ fn signed<const N: usize>(op: &str, a: &[&str]) -> Option<String> {
                     ihex(&y)
                 }
                 "3" => ihex(&(x >> (s as i32))),
-                "4" => ihex(&(&x >> (s as usize))),
+                "4" => ihex(&(&x >> su)),
                 "5" => {
                     let mut y = x;
-                    y >>= s as usize;
+                    y >>= su;
                     ihex(&y)
                 }
                 _ => return Some(BAD.into()),
@@ -359,7 +387,14 @@ fn boxed_op(op: &str, a: &[&str]) -> Option<String> {
         ("tr_wrapping_shl_vartime", [s]) => bhexlen(&ShlVartime::wrapping_shl_vartime(&x, arg!(dec32(s)))),
         ("tr_wrapping_shr_vartime", [s]) => bhexlen(&ShrVartime::wrapping_shr_vartime(&x, arg!(dec32(s)))),
         ("op_shl", [s, f]) => {
-            let s = arg!(dec32(s));
+            // the shift as written on the line; amounts above u32::MAX exist only for the `usize` forms 4 and 5
+            let s64 = arg!(s.parse::<u64>().ok());
+            let su = s64 as usize;
+            let s = match u32::try_from(s64) {
+                Ok(v) => v,
+                Err(_) if *f == "4" || *f == "5" => 0,
+                Err(_) => return Some(BAD.into()),
+            };
             match *f {
                 "0" => bhexlen(&(x << s)),
                 "1" => bhexlen(&(&x << s)),
@@ -369,10 +404,10 @@ fn boxed_op(op: &str, a: &[&str]) -> Option<String> {
                     bhexlen(&y)
                 }
                 "3" => bhexlen(&(x << (s as i32))),
-                "4" => bhexlen(&(&x << (s as usize))),
+                "4" => bhexlen(&(&x << su)),
                 "5" => {
                     let mut y = x;
-                    y <<= s as usize;
+                    y <<= su;
                     bhexlen(&y)
                 }
                 "6" => {
@@ -384,7 +419,14 @@ fn boxed_op(op: &str, a: &[&str]) -> Option<String> {
             }
         }
         ("op_shr", [s, f]) => {
-            let s = arg!(dec32(s));
+            // the shift as written on the line; amounts above u32::MAX exist only for the `usize` forms 4 and 5
+            let s64 = arg!(s.parse::<u64>().ok());
+            let su = s64 as usize;
+            let s = match u32::try_from(s64) {
+                Ok(v) => v,
+                Err(_) if *f == "4" || *f == "5" => 0,
+                Err(_) => return Some(BAD.into()),
+            };
             match *f {
                 "0" => bhexlen(&(x >> s)),
                 "1" => bhexlen(&(&x >> s)),
@@ -394,10 +436,10 @@ fn boxed_op(op: &str, a: &[&str]) -> Option<String> {
                     bhexlen(&y)
                 }
                 "3" => bhexlen(&(x >> (s as i32))),
-                "4" => bhexlen(&(&x >> (s as usize))),
+                "4" => bhexlen(&(&x >> su)),
                 "5" => {
                     let mut y = x;
-                    y >>= s as usize;
+                    y >>= su;
                     bhexlen(&y)
                 }
                 "6" => {
@@ -523,7 +565,14 @@ fn limb_op(op: &str, a: &[&str]) -> Option<String> {
         ("shl", [s]) => lhex(x.shl(arg!(dec32(s)))),
         ("shr", [s]) => lhex(x.shr(arg!(dec32(s)))),
         ("op_shl", [s, f]) => {
-            let s = arg!(dec32(s));
+            // the shift as written on the line; amounts above u32::MAX exist only for the `usize` forms 4 and 5
+            let s64 = arg!(s.parse::<u64>().ok());
+            let su = s64 as usize;
+            let s = match u32::try_from(s64) {
+                Ok(v) => v,
+                Err(_) if *f == "4" || *f == "5" => 0,
+                Err(_) => return Some(BAD.into()),
+            };
             match *f {
                 "0" => lhex(x << s),
                 "1" => lhex(&x << s),
@@ -533,17 +582,24 @@ fn limb_op(op: &str, a: &[&str]) -> Option<String> {
                     lhex(y)
                 }
                 "3" => lhex(x << (s as i32)),
-                "4" => lhex(&x << (s as usize)),
+                "4" => lhex(&x << su),
                 "5" => {
                     let mut y = x;
-                    y <<= s as usize;
+                    y <<= su;
                     lhex(y)
                 }
                 _ => return Some(BAD.into()),
             }
         }
         ("op_shr", [s, f]) => {
-            let s = arg!(dec32(s));
+            // the shift as written on the line; amounts above u32::MAX exist only for the `usize` forms 4 and 5
+            let s64 = arg!(s.parse::<u64>().ok());
+            let su = s64 as usize;
+            let s = match u32::try_from(s64) {
+                Ok(v) => v,
+                Err(_) if *f == "4" || *f == "5" => 0,
+                Err(_) => return Some(BAD.into()),
+            };
             match *f {
                 "0" => lhex(x >> s),
                 "1" => lhex(&x >> s),
@@ -553,10 +609,10 @@ fn limb_op(op: &str, a: &[&str]) -> Option<String> {
                     lhex(y)
                 }
                 "3" => lhex(x >> (s as i32)),
-                "4" => lhex(&x >> (s as usize)),
+                "4" => lhex(&x >> su),
                 "5" => {
                     let mut y = x;
-                    y >>= s as usize;
+                    y >>= su;
                     lhex(y)
                 }
                 _ => return Some(BAD.into()),
